@@ -81,6 +81,10 @@ type Net struct {
 	sameAt  int
 	// Spin is set when more than SpinLimit requests were written at one virtual instant:
 	// the client is busy-looping without any time passing. New requests then fail.
+	// DelayAll delays every response by this much virtual time; Blackhole swallows every
+	// response (the client sees a connection that accepts writes and never answers).
+	DelayAll  time.Duration
+	Blackhole bool
 	Spin      bool
 	SpinKey   int16
 	SpinLimit int
@@ -115,6 +119,13 @@ func (n *Net) AddRule(r Rule) {
 	n.mu.Lock()
 	r.Nth += n.counts[r.Key]
 	n.rules = append(n.rules, r)
+	n.mu.Unlock()
+}
+
+// SetMode sets the network-wide behaviour: every response delayed by d, and/or swallowed.
+func (n *Net) SetMode(delayAll time.Duration, blackhole bool) {
+	n.mu.Lock()
+	n.DelayAll, n.Blackhole = delayAll, blackhole
 	n.mu.Unlock()
 }
 
@@ -316,6 +327,15 @@ func (c *conn) Read(p []byte) (int, error) {
 		ri := c.pending[corr]
 		delete(c.pending, corr)
 		c.pmu.Unlock()
+		c.n.mu.Lock()
+		delayAll, blackhole := c.n.DelayAll, c.n.Blackhole
+		c.n.mu.Unlock()
+		if blackhole {
+			continue // drop the response, keep waiting (until the client gives up and closes)
+		}
+		if delayAll > 0 {
+			time.Sleep(delayAll)
+		}
 		var rule Rule
 		if ri != nil {
 			c.n.mu.Lock()
